@@ -188,6 +188,77 @@ fn slab_helpers(count: usize, size: usize) -> Result<u64, String> {
     }
 }
 
+/// successive reorder mappings on one slab (a partial view, then a view that refers to rows the first one did
+/// not, then the identity), with pair operations after each: a mapping is a view and must never give up rows
+fn slab_reorder_history(count: usize, size: usize) -> Result<u64, String> {
+    if count < 3 {
+        return Ok(0);
+    }
+    let rows: Vec<Vec<u8>> = (0..count).map(|i| data_lcg(200 + i as u64, size)).collect();
+    let r = guarded(|| -> Result<u64, String> {
+        let mut n = 0u64;
+        // mapping sequences: each mapping is injective, in range, and may cover fewer rows than the slab has
+        let partial_low: Vec<usize> = (0..count - 2).collect();
+        let partial_rev: Vec<usize> = (0..count - 1).rev().collect();
+        let high_first: Vec<usize> = (0..count).rev().collect();
+        let identity: Vec<usize> = (0..count).collect();
+        let histories: Vec<Vec<&Vec<usize>>> = vec![
+            vec![&partial_low, &identity],
+            vec![&partial_low, &high_first],
+            vec![&partial_rev, &partial_low, &identity],
+            vec![&high_first, &partial_low, &high_first],
+        ];
+        for hist in &histories {
+            let mut slab = SymbolSlab::with_zeros(count, size);
+            let mut model = rows.clone();
+            for i in 0..count {
+                slab.get_mut(i).copy_from_slice(&rows[i]);
+            }
+            for map in hist {
+                slab.set_reorder((*map).clone());
+                let l = map.len();
+                // pair operations over every ordered pair of the view
+                for d in 0..l {
+                    for sidx in 0..l {
+                        if d == sidx {
+                            continue;
+                        }
+                        slab.add_assign(d, sidx);
+                        let (pd, ps) = (map[d], map[sidx]);
+                        let srow = model[ps].clone();
+                        for (x, y) in model[pd].iter_mut().zip(srow.iter()) {
+                            *x ^= *y;
+                        }
+                        slab.fma(d, sidx, &rq::Octet::new(0x1D));
+                        let srow = model[ps].clone();
+                        for (x, y) in model[pd].iter_mut().zip(srow.iter()) {
+                            *x ^= crate::rfcref::gf::mul(*y, 0x1D);
+                        }
+                        n += 2;
+                    }
+                }
+                for i in 0..l {
+                    if slab.get(i) != &model[map[i]][..] {
+                        return Err(format!("after set_reorder({:?}) and pair operations: logical symbol {} differs from the plain-vector model", map, i));
+                    }
+                }
+            }
+            // finally look at every physical row
+            slab.set_reorder((0..count).collect());
+            for i in 0..count {
+                if slab.get(i) != &model[i][..] {
+                    return Err(format!("reorder history {:?}: physical row {} differs from the plain-vector model", hist, i));
+                }
+            }
+        }
+        Ok(n)
+    });
+    match r {
+        Ok(x) => x.map_err(|m| format!("slab reorder history ({} symbols of {} bytes): {}", count, size, m)),
+        Err(p) => Err(format!("slab reorder history ({} symbols of {} bytes): panic {}", count, size, p)),
+    }
+}
+
 fn slab_grid(ctx: &Ctx, st: &Stats) {
     let sizes: Vec<usize> = if ctx.quick() { (0..=70).chain([127, 128, 129, 130]).collect() } else { (0..=130).collect() };
     let mut units: Vec<(usize, usize)> = vec![];
@@ -213,6 +284,10 @@ fn slab_grid(ctx: &Ctx, st: &Stats) {
                     }
                 }
             }
+        }
+        match slab_reorder_history(count, size) {
+            Ok(h) => { n += h; st.count("slab_reorder_history_ops", h); }
+            Err(m) => st.violation(format!("slabreorder:{}:{}", count, size), m, json!({"kind":"slabreorder","count":count,"size":size})),
         }
         match slab_helpers(count, size) {
             Ok(h) => { n += h; st.count("slab_helper_cases", h); }
@@ -306,7 +381,14 @@ fn child_part(ctx: &Ctx, st: &Stats, part: &str, verbose: bool) {
         "slab" => {
             if verbose {
                 let sizes: Vec<usize> = (0..=130).collect();
-                for count in 1..=6usize { for &size in &sizes { for mapping in 0..4u8 { for op in 0..3u8 { for dest in 0..=count { for src in 0..=count {
+                for count in 1..=6usize { for &size in &sizes {
+                    println!("CASE {}", json!({"kind":"slabreorder","count":count,"size":size}));
+                    let _ = std::io::stdout().flush();
+                    let _ = slab_reorder_history(count, size);
+                    println!("CASE {}", json!({"kind":"slabhelpers","count":count,"size":size}));
+                    let _ = std::io::stdout().flush();
+                    let _ = slab_helpers(count, size);
+                    for mapping in 0..4u8 { for op in 0..3u8 { for dest in 0..=count { for src in 0..=count {
                     println!("CASE {}", json!({"kind":"slab","count":count,"size":size,"dest":dest,"src":src,"mapping":mapping,"op":op}));
                     let _ = std::io::stdout().flush();
                     let _ = slab_case(count, size, dest, src, mapping, op);
@@ -345,6 +427,7 @@ fn child_part(ctx: &Ctx, st: &Stats, part: &str, verbose: bool) {
 fn run_case_here(case: &Value) -> Result<(), String> {
     match case["kind"].as_str().unwrap_or("kernel") {
         "slab" => slab_case(case["count"].as_u64().unwrap() as usize, case["size"].as_u64().unwrap() as usize, case["dest"].as_u64().unwrap() as usize, case["src"].as_u64().unwrap() as usize, case["mapping"].as_u64().unwrap() as u8, case["op"].as_u64().unwrap() as u8),
+        "slabreorder" => slab_reorder_history(case["count"].as_u64().unwrap() as usize, case["size"].as_u64().unwrap() as usize).map(|_| ()),
         "slabhelpers" => slab_helpers(case["count"].as_u64().unwrap() as usize, case["size"].as_u64().unwrap() as usize).map(|_| ()),
         "workload" => workload(case["K"].as_u64().unwrap() as u32, case["T"].as_u64().unwrap() as u16, case["threshold"].as_u64().unwrap() as u32),
         "index" => crate::c10::replay(&json!({"kind":"index","a":case["a"],"b":case["b"],"c":0})),
@@ -478,8 +561,8 @@ pub fn run(ctx: &Ctx) -> i32 {
         }
     }
     st.count("table_index_pairs", 65536);
-    // (2) functional slab grid in this process (no page heap)
-    slab_grid(ctx, &st);
+    // (2) the slab grid runs only in the guard-page children below: a library that writes outside its rows must
+    // fault there, not corrupt the heap of this process
     // (1), (2), (4) under the page heap, both placements
     for mode in ["end", "start"] {
         for part in ["kernels", "slab", "workloads"] {
@@ -497,14 +580,14 @@ pub fn run(ctx: &Ctx) -> i32 {
             let v = spawn(ctx, mode, part, true, Some(1));
             let so = String::from_utf8_lossy(&v.stdout).to_string();
             let last = so.lines().filter(|l| l.starts_with("CASE ")).last().map(|l| l[5..].to_string());
-            if v.status.signal().is_none() || last.is_none() {
+            if last.is_none() || (v.status.signal().is_none() && v.status.success()) {
                 machinery_failure(&format!("guard child {} died with signal {:?} but the verbose single-threaded rerun did not ({:?})", tag, sig, v.status));
             }
             let mut case: Value = serde_json::from_str(&last.unwrap()).unwrap_or(json!({}));
             if let Some(m) = case.as_object_mut() {
                 m.insert("pageheap".into(), json!(mode));
             }
-            st.violation(format!("fault:{}:{}", tag, case), format!("memory access outside the operand buffers: signal {:?} with every heap operand placed at the {} of its guard page; case in flight: {}", v.status.signal(), mode, case), case);
+            st.violation(format!("fault:{}:{}", tag, case), format!("memory access outside the operand buffers: the guard-page child died with signal {:?} (single-threaded re-run: {:?}) with every heap operand placed at the {} of its guard page; case in flight: {}", sig, v.status, mode, case), case);
             st.count(&format!("{}/died", tag), 1);
         }
     }
@@ -528,6 +611,6 @@ pub fn run(ctx: &Ctx) -> i32 {
         exhaustive: false,
         assumptions: vec!["NEON cannot execute here".into(), "slots beyond 28000 are created without guard page (counted in pageheap_unguarded_allocations_over_cap)".into(), "stacked-borrows aliasing is judged by Miri only in the thorough tier, on fixed replays (complete slab pair grid up to 3x9, byte kernels at lengths 0..=40 x offsets 0..=8, one K=3 encode+decode)".into()],
         extra: Map::new(),
-        must_be_nonzero: vec!["table_index_pairs", "slab_pair_cases", "end/kernels/calls_avx2", "end/kernels/pageheap_guarded_allocations", "start/kernels/calls_avx512", "end/slab/slab_pair_cases", "start/slab/slab_pair_cases", "end/workloads/workloads", "start/workloads/workloads"],
+        must_be_nonzero: vec!["table_index_pairs", "end/kernels/calls_avx2", "end/kernels/pageheap_guarded_allocations", "start/kernels/calls_avx512", "end/slab/slab_pair_cases", "start/slab/slab_pair_cases", "end/workloads/workloads", "start/workloads/workloads"],
     }, replay)
 }
